@@ -230,7 +230,7 @@ Example ex_defect :
   snd (run [OCreate 0 [] false; OResume 0 []; ODestroy 0; OStatus 0; ORet []; ODestroy 0] (init true)) =
   [mkLine None 0 "create" [FS "ok"]; mkLine (Some 0) 0 "start" [];
    mkLine (Some 0) 0 "destroy" [FB false; FS "Invalid operation"];
-   mkLine (Some 0) 0 "status" [FS "running"; FN 0; FB true; FB false];
+   mkLine (Some 0) 0 "status" [FS "running"; FN 0; FB true; FB false; FP None];
    mkLine (Some 0) 0 "return" []; mkLine None 0 "resume" [FB true; FS ""];
    mkLine None 0 "panic" [FS "invalid unregister pointer"]]%string.
 Proof. vm_compute. reflexivity. Qed.
@@ -248,7 +248,7 @@ Example ex_values :
    mkLine (Some 0) 0 "yield" [FB true; FS ""];
    mkLine (Some 0) 0 "return" []; mkLine None 0 "resume" [FB true; FS ""];
    mkLine None 0 "pop" [FB true; FS ""; FV [5]%Z; FV [6;0;0;0;0;0;0;0]%Z];
-   mkLine None 0 "status" [FS "dead"; FN 0; FB true; FB true]]%string.
+   mkLine None 0 "status" [FS "dead"; FN 0; FB true; FB true; FP None]]%string.
 Proof. vm_compute. reflexivity. Qed.
 
 (* dead-is-absorbing has a dead coroutine to talk about; destroy removes it *)
